@@ -162,6 +162,13 @@ fn main() {
     run(&mut ctx);
     ctx.obs.count(if with_logger { "run_with_a_trace_level_logger_rendering_every_record" } else { "run_without_a_logger" }, 1);
     ctx.obs.count("log_records_rendered", LOG_RECORDS.load(std::sync::atomic::Ordering::Relaxed));
+    #[cfg(feature = "data")]
+    {
+        let n = s3sim::MULTI_THREAD_RUNS.load(std::sync::atomic::Ordering::Relaxed);
+        if n > 0 {
+            ctx.obs.count("async_calls_driven_by_a_multi_thread_runtime", n);
+        }
+    }
     let code = ctx.finish();
     std::process::exit(code);
 }
